@@ -468,6 +468,27 @@ def deref_access_temps(func_node):
     return fn
 
 
+def _prefix_rows(v, k):
+    """[X[..., 0], ..., X[..., k-1]] when v is X[..., :k] (a constant prefix slice as the LAST index), else None"""
+    import copy as _copy
+    if not isinstance(v, ast.Subscript):
+        return None
+    idxs = list(v.slice.elts) if isinstance(v.slice, ast.Tuple) else [v.slice]
+    last = idxs[-1]
+    if not (isinstance(last, ast.Slice) and last.lower is None and last.step is None and isinstance(last.upper, ast.Constant) and last.upper.value == k):
+        return None
+    if any(isinstance(x, ast.Slice) for x in idxs[:-1]):
+        return None
+    out = []
+    for j in range(k):
+        elts = [_copy.deepcopy(x) for x in idxs[:-1]] + [ast.Constant(value=j)]
+        sl = elts[0] if len(elts) == 1 else ast.Tuple(elts=elts, ctx=ast.Load())
+        out.append(ast.copy_location(ast.Subscript(value=_copy.deepcopy(v.value), slice=sl, ctx=ast.Load()), v))
+    for n in out:
+        ast.fix_missing_locations(n)
+    return out
+
+
 def assign_pairs(st):
     """(target, value) pairs of an assignment statement; a tuple assignment `a, b = x, y` of equal arity is read element-wise
     (all values are evaluated before any store, so the pairs are simultaneous)"""
@@ -478,6 +499,10 @@ def assign_pairs(st):
         if isinstance(t, (ast.Tuple, ast.List)) and isinstance(st.value, (ast.Tuple, ast.List)) and len(t.elts) == len(st.value.elts) \
                 and not any(isinstance(e, ast.Starred) for e in list(t.elts) + list(st.value.elts)):
             out.extend(zip(t.elts, st.value.elts))
+        elif isinstance(t, (ast.Tuple, ast.List)) and _prefix_rows(st.value, len(t.elts)) is not None \
+                and not any(isinstance(e, ast.Starred) for e in t.elts):
+            # `a, b, c = X[i, :3]` / `a, b, c = X[:3]`: unpacking iterates the first axis of the prefix slice, a = X[i, 0], b = X[i, 1], c = X[i, 2]
+            out.extend(zip(t.elts, _prefix_rows(st.value, len(t.elts))))
         else:
             out.append((t, st.value))
     return out
